@@ -336,6 +336,11 @@ func c11(r *Report) propMeta {
 	c11Tick(r)
 
 	r.Rule("C11.R7", "E16 tick conversion: shift counts cannot wrap")
+	// the tick that is encoded is PriceToTick of that very price (or the 0 of a missing price), not a value from a second,
+	// approximate conversion (seed C11-11: a "start from the neighbour's tick" fast path that compares against the rounded
+	// TickToPrice and lands up to three ticks high)
+	r.ArgEdgesAmong("encoded-tick-is-PriceToTick-of-the-price", "x/feeds/types.ToRelayTickPrices", "types.NewRelayPrice", 1,
+		[][]string{{"^field:Price.Price"}, {"^~call:tickmath.PriceToTick", "field:Price.Price"}}, "the price itself (when it is 0) or the result of tickmath.PriceToTick(price.Price)")
 	r.UnsignedSubGuarded("shift-counts", "pkg/tickmath.PriceToTick", 2)
 	r.NormalisedBeforeSquaring("mantissa-normalised", "pkg/tickmath.PriceToTick")
 
